@@ -22,6 +22,16 @@ MODES = ["none", "identity", "equality"]
 MISSING = "<missing>"
 
 
+class BadRepr:
+    """A value that cannot be printed (repr/str raise), as a handle to a closed
+    resource or an int beyond the digit limit would be."""
+
+    def __repr__(self):
+        raise RuntimeError("unprintable")
+
+    __str__ = __repr__
+
+
 class BadEq:
     """A value whose == and != raise."""
     __hash__ = object.__hash__
@@ -39,6 +49,11 @@ class BadEq:
 def build_pool():
     import numpy as np
     from ..zoo import NodeBase
+
+    class BadReprNode(NodeBase):
+        def __repr__(self):
+            raise RuntimeError("unprintable")
+        __str__ = __repr__
     nan1 = float("nan")
     nan2 = float("nan")
     return [
@@ -53,16 +68,17 @@ def build_pool():
         "ab", "".join(["a", "b"]), "cd",                          # 19 20 21
         NodeBase(), NodeBase(),                                   # 22 23
         (1,), 1.5, "1000",                                        # 24 25 26
+        BadRepr(), BadReprNode(),                                 # 27 28
     ]
 
 
 VALID = {
-    "Any": list(range(27)),
+    "Any": list(range(29)),
     "Int": [0, 1, 2, 3, 4, 5, 0, 4],
     "Str": [19, 20, 21, 26],
     "List": [8, 9, 10],
-    "Instance": [22, 23, 13, 22],
-    "Event": [0, 1, 5, 13, 19, 8, 11],
+    "Instance": [22, 23, 13, 22, 28],
+    "Event": [0, 1, 5, 13, 19, 8, 11, 27],
     "Button": [0, 1, 5, 13, 19],
 }
 INVALID = {
@@ -116,6 +132,14 @@ class Prop:
             kind = c.choice(KINDS)
             traits.append({"name": "t%d" % i, "kind": kind,
                            "mode": c.choice(MODES) if kind not in ("Event", "Button") else "event"})
+        shared_def = None
+        if ntr >= 2 and c.random() < 0.2:
+            # ONE ready-made trait definition object bound to two names of the class
+            # (and to a name of an unrelated class that has a static handler of its own)
+            i, j = c.sample(range(ntr), 2)
+            traits[j]["kind"], traits[j]["mode"] = traits[i]["kind"], traits[i]["mode"]
+            traits[j]["same_as"] = i
+            shared_def = {"other": c.choice(["before", "after", None])}
         hid = [0]
 
         def nid(prefix):
@@ -220,7 +244,10 @@ class Prop:
         return {"prop": ID, "seed": seed,
                 "config": {"traits": traits, "static": static, "any": any_h, "dec": dec,
                            "dyn": dyn, "ctor": ctor, "policy": policy, "subclass": subclass,
-                           "override": override},
+                           "override": override, "shared_def": shared_def,
+                           # no exception handler pushed: the library's own default
+                           # (logging) handlers deal with failing change handlers
+                           "default_exc": c.random() < 0.2},
                 "ops": ops}
 
     @staticmethod
@@ -247,8 +274,16 @@ class Prop:
         cm = {"none": CM.none, "identity": CM.identity, "equality": CM.equality}
         ns = {}
         names = [t["name"] for t in cfg["traits"]]
-        for t in cfg["traits"]:
+        shared_src = {t["same_as"] for t in cfg["traits"] if "same_as" in t}
+        for ti, t in enumerate(cfg["traits"]):
             k = t["kind"]
+            if "same_as" in t:
+                continue
+            if ti in shared_src:
+                # a ready-made definition object (as `Color`, `Font`, `Trait(...)` constants
+                # are): bound to a second name below
+                ns[t["name"]] = self.mk_trait(t).as_ctrait()
+                continue
             if k == "Event":
                 ns[t["name"]] = Event()
             elif k == "Button":
@@ -258,6 +293,22 @@ class Prop:
             else:
                 ns[t["name"]] = {"Any": Any, "Int": Int, "Str": Str, "List": List}[k](
                     comparison_mode=cm[t["mode"]])
+        for t in cfg["traits"]:
+            if "same_as" in t:
+                ns[t["name"]] = ns[cfg["traits"][t["same_as"]]["name"]]
+        sd = cfg.get("shared_def")
+        shared_obj = {t["name"]: ns[t["name"]] for ti, t in enumerate(cfg["traits"])
+                      if ti in shared_src}
+
+        def other_class():
+            # an unrelated class declares the same definition object and a static
+            # handler for it: that handler must never hear of our object
+            src = [t for ti, t in enumerate(cfg["traits"]) if ti in shared_src][0]
+            return type(HasTraits)("SimC02Other", (HasTraits,), {
+                src["name"]: shared_obj[src["name"]],
+                "_%s_changed" % src["name"]: mk_static("foreign", 3, H, src["name"])})
+        if sd and sd.get("other") == "before" and shared_src:
+            self._other = other_class()
         for s in cfg["static"]:
             t = cfg["traits"][s["trait"]]
             tn = t["name"]
@@ -280,6 +331,8 @@ class Prop:
                 ns[mname] = observe(tn, post_init=d["post_init"])(
                     mk_dec_obs(d["id"], H, mname))
         cls = type(HasTraits)("SimC02", (HasTraits,), ns)
+        if sd and sd.get("other") == "after" and shared_src:
+            self._other = other_class()
         for level in range(cfg.get("subclass") or 0):
             sub_ns = {}
             ov = cfg.get("override")
@@ -341,13 +394,33 @@ class Prop:
         H.origin = sched.cur_origin
         self._sched = sched
         self._pushed = 0
+        self._other = None
         sched.install()
-        push_exception_handler(lambda o, n, old, new: legacy_exc.append(n),
-                               reraise_exceptions=False)
-        self._pushed = 1
-        oapi.push_exception_handler(lambda ev: obs_exc.append(getattr(ev, "name", None)),
-                                    reraise_exceptions=False)
-        self._pushed = 2
+        if cfg.get("default_exc"):
+            # the library's default handlers log the failure; a real log handler (one
+            # that formats every record, as a stream handler does) counts the reports
+            import logging
+
+            class Counting(logging.Handler):
+                def emit(self, record):
+                    legacy_exc.append("log")
+                    try:
+                        self.format(record)
+                    except Exception:     # noqa: BLE001 - logging.Handler.handleError
+                        pass
+            lg = logging.getLogger("traits")
+            self._log_state = (lg, Counting(), lg.propagate, lg.level, logging.root.manager.disable)
+            lg.addHandler(self._log_state[1])
+            lg.propagate = False
+            logging.disable(logging.NOTSET)
+            env.probe("default-exception-handlers-run")
+        else:
+            push_exception_handler(lambda o, n, old, new: legacy_exc.append(n),
+                                   reraise_exceptions=False)
+            self._pushed = 1
+            oapi.push_exception_handler(lambda ev: obs_exc.append(getattr(ev, "name", None)),
+                                        reraise_exceptions=False)
+            self._pushed = 2
         cls = self.build(cfg, H)
         listeners = []
         # ---- per-handler applicability
@@ -395,6 +468,7 @@ class Prop:
                 self.register(obj, traits, d, handlers[d["id"]], False)
                 active.add(d["id"])
         # ---- history
+        unprintable_seen = [1 for ti, vi in cfg["ctor"] if vi % len(pool) in (27, 28)]
         nchecked = 0
         for i, op in enumerate(trace["ops"]):
             env.begin_op(i, op)
@@ -492,6 +566,14 @@ class Prop:
             sync_raised = sum(1 for rec in records[rec0:]
                               if rec.get("raised") and not rec["deferred"] and not rec.get("async"))
             routed = (len(legacy_exc) - n_leg0) + (len(obs_exc) - n_obs0)
+            vis = ([op.get("v")] if k == "set" else
+                   [x[1] for x in op.get("items", ())] if k == "trait_set" else [])
+            if any(isinstance(vi, int) and vi % len(pool) in (27, 28) for vi in vis):
+                unprintable_seen.append(1)     # (sticky: it may be the old value next time)
+            if cfg.get("default_exc") and unprintable_seen and routed < sync_raised:
+                # the default handler of on_trait_change gives up silently on a report it
+                # cannot format ("ignore anything we can't log"): at most one report each
+                routed = sync_raised
             if routed != sync_raised:
                 raise Violation("C02.exception-routing",
                                 "op %s: %d handler exception(s) raised synchronously, %d routed to "
@@ -587,6 +669,17 @@ class Prop:
         for (origin, ti, old, new, changed, act) in expected:
             exp_keys.setdefault(origin, set()).add(tnames[ti])
         for rec in records:
+            if rec["h"] == "foreign":
+                raise Violation("C02.foreign-handler-called",
+                                "the static handler of an unrelated class that declares the same "
+                                "trait definition object was called (op %d)" % rec["origin"],
+                                rec["origin"])
+            if rec["name"] is not MISSING and rec["h"] in applies and rec["name"] in tnames \
+                    and applies[rec["h"]] and tnames.index(rec["name"]) not in applies[rec["h"]]:
+                raise Violation("C02.spurious-call",
+                                "handler %s was called for %s (op %d), a trait it was never "
+                                "registered for" % (rec["h"], rec["name"], rec["origin"]),
+                                rec["origin"])
             if rec["h"] in applies and not applies[rec["h"]]:
                 raise Violation("C02.overridden-handler-called",
                                 "static handler %s is overridden in the subclass but was called "
@@ -710,6 +803,15 @@ class Prop:
         if p >= 1:
             pop_exception_handler()
         self._pushed = 0
+        self._other = None
+        ls = getattr(self, "_log_state", None)
+        if ls is not None:
+            import logging
+            lg, h, prop, level, dis = ls
+            lg.removeHandler(h)
+            lg.propagate = prop
+            logging.disable(dis)
+            self._log_state = None
 
     # ------------------------------------------------------------------ shrinking
     def simplify_trace(self, trace):
@@ -871,7 +973,10 @@ def same_old(got, old):
 def short(v):
     if type(v) is tuple and len(v) == 2 and v[0] == "default":
         return "default(%s)" % short(v[1])
-    s = repr(v)
+    try:
+        s = repr(v)
+    except Exception:       # noqa: BLE001 - values that cannot be printed
+        s = "<unprintable %s>" % type(v).__name__
     s = s.replace("\n", " ")
     return s if len(s) < 40 else s[:37] + "..."
 
